@@ -504,6 +504,20 @@ func genLink(g *common.Gen, packets [][]byte) {
 				}
 			}
 		}
+		// every component value length 0..300 once (boundaries of fixed-size scratch buffers on the way to the
+		// forwarding threads: the name hashes that pick the thread), Interest and token-less Data
+		if h%6 == 3 {
+			for vl := 0; vl <= 300; vl++ {
+				name := c13.TLV(7, append(c13.TLV(8, []byte("a")), c13.TLV(8, r.Bytes(vl))...))
+				interest := c13.TLV(5, append(append([]byte{}, name...), c13.TLV(0x0a, []byte{1, 2, 3, 4})...))
+				g.Op("frame %s", common.Hex(interest))
+				if vl%3 == 0 {
+					data := c13.TLV(6, append(append(append([]byte{}, name...), c13.TLV(0x16, c13.TLV(0x1b, []byte{0}))...), c13.TLV(0x17, []byte{})...))
+					g.Op("frame %s", common.Hex(lpFrame(nil, nil, nil, nil, data)))
+				}
+			}
+			g.Stat("frame-component-length-sweep")
+		}
 		// many incomplete messages at once (each lost a fragment), then the peer restarts its sequence
 		// numbers: a fragment whose base sequence is LOWER than every stored one, then its completion
 		if h%6 == 2 && reasm {
